@@ -79,3 +79,12 @@ CHECKS["C08"] = dict(
     level_text="Grammar-based random generation with ground truth known by construction; 30k selectors per quick run plus 1.2k end-to-end through a real responder. One defect (interpret-as) found and fixed.",
     level_note="Trusts the AST's own bad() predicate (8 lines) and ParseSelector as the definition of well-formed.",
     technique="grammar-based property testing with ground truth by construction", design_ref="DESIGN.md §6 C08")
+
+CHECKS["C11"] = dict(
+    pkg="props/c11", level="exploration", gomaxprocs=2,
+    rule="messages built through the public constructors from a generator covering the v2 schema: New/Cancel/Update requests (16-byte IDs; roots of CID v0/v1, 7 codecs, 17 hash functions incl. identity and truncated digests, or absent; selectors from the traversal generator, arbitrary Any trees, or absent; priorities 0, +-1, int32 extremes), responses (all 14 statuses, metadata lists with all 4 actions and repeated links, or absent), extension maps (absent / nil / null / scalars / nested maps and lists, the three known names and odd names), blocks (any prefix as above, 0 B - 64 KiB); streams of 1-5 messages. Oracle: FromNet(ToNet(m)) equals m under accessor-level, map-order-insensitive equality (nil extension payload == IPLD null); a stream written into one buffer decodes message by message through one msgio reader and then yields io.EOF; cid-set / dedup-key / skip-count payloads decode to the encoded values both directly and through a request on the wire. Non-trivial: >= 2 of {absent optional, zero priority, null/nested extension, non-default CID, identity CID, repeated metadata link, stream > 1}.",
+    assumptions=["a top-level IPLD null selector is not expressible (`sel optional Any`, not nullable) and is excluded", "hash functions are those go-multihash registers by default"],
+    quick=dict(shards=2, timeout=300), thorough=dict(shards=16, timeout=3000),
+    level_text="Round-trip property over generated well-formed messages and streams; equality written against public accessors only.",
+    level_note="Trusts the 100-line equality in msggen and go-msgio framing.",
+    technique="rapid round-trip property testing", design_ref="DESIGN.md §6 C11")
